@@ -363,6 +363,9 @@ func runC04(p *Prog, r *Result) {
 							if _, isTA := ast.Unparen(x.Rhs[0]).(*ast.TypeAssertExpr); !isTA {
 								if _, isLit := ast.Unparen(x.Rhs[0]).(*ast.UnaryExpr); !isLit {
 									locals = append(locals, local{info.ObjectOf(id), nt})
+									if o, f := ownerField(x.Rhs[0]); o != nil {
+										parents[info.ObjectOf(id)] = parentLink{o, f}
+									}
 								}
 							}
 						}
@@ -531,6 +534,47 @@ func runC04(p *Prog, r *Result) {
 			}
 			return true
 		})
+		// a list emptied in place (`loop.Items = nil`): every node this function took out of that list, directly or
+		// through further field/index steps, is thrown away with it, and nothing of it is kept
+		ast.Inspect(fd.Body, func(n ast.Node) bool {
+			as, ok := n.(*ast.AssignStmt)
+			if !ok || len(as.Lhs) != len(as.Rhs) {
+				return true
+			}
+			for i, l := range as.Lhs {
+				if !isNilIdent(info, as.Rhs[i]) {
+					continue
+				}
+				o, f := ownerField(l)
+				if o == nil {
+					continue
+				}
+				// locals whose chain of parents reaches (o, f)
+				for _, lc := range locals {
+					cur := lc.obj
+					reached := false
+					for steps := 0; steps < 8; steps++ {
+						pl, has := parents[cur]
+						if !has {
+							break
+						}
+						if pl.owner == o && pl.field == f {
+							reached = true
+							break
+						}
+						cur = pl.owner
+					}
+					if reached {
+						k := lc.obj.Name() + ".(dropped with " + f + ")"
+						if !seen[k] {
+							seen[k] = true
+							discards = append(discards, discard{lc, "", as.Pos()})
+						}
+					}
+				}
+			}
+			return true
+		})
 		// the owner of a discarded (or partly kept) node is discarded too when the function returns the inner part
 		for i := 0; i < len(discards); i++ {
 			d := discards[i]
@@ -571,12 +615,20 @@ func runC04(p *Prog, r *Result) {
 				case keptElsewhere(info, fd, d.l.obj, f.Name(), d.l.t):
 					r.OK("R04c", key, d.pos, "carried over into a replacement node of the same type")
 				default:
-					if why, ok := c04FieldExceptions[d.l.t.Obj().Name()+"."+f.Name()+"@"+fd.Name.Name]; ok {
+					why, ok := c04FieldExceptions[d.l.t.Obj().Name()+"."+f.Name()+"@"+fd.Name.Name]
+					if !ok {
+						why, ok = c04FieldExceptions[d.l.t.Obj().Name()+"."+f.Name()+"@*"]
+					}
+					if ok {
 						r.OK("R04c", key, d.pos, "exception: "+why)
 						r.Except(d.l.t.Obj().Name()+"."+f.Name(), why)
 						continue
 					}
-					r.Bad("R04c", key, d.pos, fmt.Sprintf("the rewrite throws the %s away and keeps only its %s, without ever looking at its field %s: a node where that field matters is rewritten as if it did not", d.l.t.Obj().Name(), d.kept, f.Name()))
+					keeps := "and keeps only its " + d.kept
+					if d.kept == "" {
+						keeps = "(nothing of it is kept)"
+					}
+					r.Bad("R04c", key, d.pos, fmt.Sprintf("the rewrite throws the %s away %s, without ever looking at its field %s: a node where that field matters is rewritten as if it did not", d.l.t.Obj().Name(), keeps, f.Name()))
 				}
 			}
 		}
@@ -685,7 +737,7 @@ func runC04(p *Prog, r *Result) {
 // c04FieldExceptions: Type.Field@function -> reason. One line each.
 var c04FieldExceptions = map[string]string{
 	"DblQuoted.Dollar@unquoteParams": "$\"…\" asks for locale translation of the literal text; the rewrite only fires when the quotes hold a single parameter expansion and no text",
-	"ParamExp.Short@inlineSimpleParams": "Short only records whether the braces of ${name} were written; it does not change what is expanded",
+	"ParamExp.Short@*":                  "Short only records whether the braces of ${name} were written; it does not change what is expanded",
 	"Word.Parts@inlineSimpleParams":  "the guard len(w.Parts) == 1 and the assertion on w.Parts[0] look at the whole slice; reported as a read of Parts through indexing",
 }
 
